@@ -86,13 +86,20 @@ Record track := {
   tk_ctx_proc : bool;      (* a processed one *)
   tk_mixed : bool;         (* When: some processed transition activated one of its states
                               and deactivated another *)
-  tk_window : bool         (* subscribed between setActiveStates and ProcessStateCtx *)
+  tk_window : bool;        (* subscribed between setActiveStates and ProcessStateCtx *)
+  tk_fault : bool          (* a transition faulted in its final phase since the subscription *)
 }.
 
 Definition tk_set (t : track) (hp hu ct cp mx : bool) : track :=
   {| tk_k := tk_k t; tk_op := tk_op t; tk_tick0 := tk_tick0 t; tk_cond0 := tk_cond0 t;
      tk_ctx0 := tk_ctx0 t; tk_held_proc := hp; tk_held_unproc := hu; tk_ctx_tx := ct;
-     tk_ctx_proc := cp; tk_mixed := mx; tk_window := tk_window t |}.
+     tk_ctx_proc := cp; tk_mixed := mx; tk_window := tk_window t; tk_fault := tk_fault t |}.
+
+Definition tk_mark_fault (t : track) : track :=
+  {| tk_k := tk_k t; tk_op := tk_op t; tk_tick0 := tk_tick0 t; tk_cond0 := tk_cond0 t;
+     tk_ctx0 := tk_ctx0 t; tk_held_proc := tk_held_proc t; tk_held_unproc := tk_held_unproc t;
+     tk_ctx_tx := tk_ctx_tx t; tk_ctx_proc := tk_ctx_proc t; tk_mixed := tk_mixed t;
+     tk_window := tk_window t; tk_fault := true |}.
 
 Definition op_states (o : sop) : list nat :=
   match o with
@@ -141,15 +148,15 @@ Definition verdict (e : env) (t : track) (closed : bool) : option N :=
   else if closed then
     (* spurious *)
     Some (if is_sctx o then (if tk_window t then 674 else 670)
-          else if en_faults e then 691
+          else if tk_fault t then 691
           else if is_when o && multi && tk_mixed t then b + 2
           else if en_setschema e && (is_time o || is_query o) then b + 7
           else b)%N
   else
     (* lost *)
     Some (if en_disposed e then b + 8
-          else if is_sctx o then (if en_faults e then 672 else 671)
-          else if en_faults e then 690
+          else if is_sctx o then (if tk_fault t then 672 else 671)
+          else if tk_fault t then 690
           else if checks_at_subscribe o && tk_cond0 t then
             (if en_setschema e && is_time o then b + 7 else b + 5)
           else if tk_held_proc t then
@@ -197,7 +204,7 @@ Definition new_track (e : env) (k : nat) (v : view) (o : sop) : track :=
      tk_cond0 := cond r v;
      tk_ctx0 := match op_ctx o with Some c => mem c (en_done e) | None => false end;
      tk_held_proc := false; tk_held_unproc := false; tk_ctx_tx := false; tk_ctx_proc := false;
-     tk_mixed := false; tk_window := v_window v |}.
+     tk_mixed := false; tk_window := v_window v; tk_fault := false |}.
 
 Definition inter (a b : list nat) : bool := existsb (fun x => mem x b) a.
 
@@ -262,8 +269,12 @@ Definition walk_step (rets : list opobs) (polls : list (list bool)) (w : wstate)
        w_codes := w_codes w; w_applied := w_applied w |}
   | ETxEnd v processed =>
     (* applied (ticks moved) but not accepted: a fault in the final phase *)
-    let e' := if w_applied w && negb processed then env_fault e else e in
-    {| w_env := e'; w_tracks := map (at_tx_end e v processed) (w_tracks w); w_poll := w_poll w;
+    let faulted := w_applied w && negb processed in
+    let e' := if faulted then env_fault e else e in
+    {| w_env := e';
+       w_tracks := map (fun t => let t' := at_tx_end e v processed t in
+                                 if faulted then tk_mark_fault t' else t') (w_tracks w);
+       w_poll := w_poll w;
        w_codes := w_codes w; w_applied := false |}
   | EQueueEnd =>
     {| w_env := e; w_tracks := map at_queue_end (w_tracks w); w_poll := w_poll w;
